@@ -379,8 +379,9 @@ inductive CopyRule where
   deriving DecidableEq, Repr
 
 inductive EvictRule where
-  | unlessCopiesHashed   -- `if not (copy and matchings)` (after fix 6c26962)
-  | whenNotCopied        -- `if not copy` (before the fix)
+  | ownUnlessCopiesHashed -- `if not (copy and matchings): for node in unhashed` — only what diff() cached itself (b176b7b)
+  | unlessCopiesHashed    -- `if not (copy and matchings)`: every input node (6c26962 .. b176b7b)
+  | whenNotCopied         -- `if not copy`: every input node (before 6c26962)
   | always
   | never
   deriving DecidableEq, Repr
@@ -393,7 +394,7 @@ structure Policy where
   deriving DecidableEq, Repr
 
 /-- today's `diff()` -/
-def today : Policy := ⟨.whenShared, .whenShared, .unlessCopiesHashed⟩
+def today : Policy := ⟨.whenShared, .whenShared, .ownUnlessCopiesHashed⟩
 
 structure WNode where
   obj : Id
@@ -443,12 +444,14 @@ def runDiff (pol : Policy) (sw tw : Walk) (fs ft : Nat → Id) (hasMatchings : B
   let filled := if copy && hasMatchings then seen else inputs
   let h1 : Id → Bool := fun x => hash0 x || filled.contains x
   let h2 : Id → Bool := fun x => h1 x || (touched x && seen.contains x)
-  let clear : Bool := match pol.evict with
+  -- `finally`: which input objects get `_hash = None`
+  let clear : Id → Bool := fun x => inputs.contains x && match pol.evict with
+    | .ownUnlessCopiesHashed => !(copy && hasMatchings) && !hash0 x   -- `unhashed`: `_hash is None` before hashing
     | .unlessCopiesHashed => !(copy && hasMatchings)
     | .whenNotCopied => !copy
     | .always => true
     | .never => false
-  ⟨(cS, cT), seenS, seenT, fun x => if clear && inputs.contains x then false else h2 x⟩
+  ⟨(cS, cT), seenS, seenT, fun x => if clear x then false else h2 x⟩
 
 /-- every object's `.parent` pointer agrees with the structure of the walk it is seen in -/
 def consistentB (w : Walk) : Bool :=
